@@ -3,6 +3,8 @@
   Property theorems only; lemmas live in GwfProps/Lemmas.
 -/
 import GwfProps.Lemmas.SchedTop
+import GwfProps.C04
+import GwfModel.Project
 namespace Gwf.C02
 open Gwf
 
@@ -136,6 +138,17 @@ theorem statusMap_exists_unique (w : Wf) (h : Acyclic w) :
     ∃ σ, IsStatusMap w σ ∧ ∀ σ', IsStatusMap w σ' → ∀ t, σ' t = σ t := by
   obtain ⟨σ, hσ⟩ := statusMap_exists w h
   exact ⟨σ, hσ, fun σ' h' t => statusMap_unique w h σ' σ h' hσ t⟩
+
+/-- **composition with validation**: for every project whose graph construction succeeds (any size,
+    any depth), the scheduling pass of the model runs with enough fuel and on an acyclic relation —
+    i.e. the hypotheses `hr`, `hf` of the theorems above hold with the fuel the model really uses,
+    and the declarative status map exists and is unique -/
+theorem validated_project (p : Proj) (g : Graph String) (hg : p.graph = .ok g)
+    (hid : ∀ t ∈ p.tgts, ∀ u ∈ p.tgts, t.id = u.id → t = u) :
+    (∃ rank : Nat → Nat, (∀ t d, d ∈ (p.wf g).deps t → rank d < rank t) ∧ ∀ t, rank t < g.ids.length + 1)
+    ∧ ∃ σ, IsStatusMap (p.wf g) σ ∧ ∀ σ', IsStatusMap (p.wf g) σ' → ∀ t, σ' t = σ t := by
+  obtain ⟨rank, h1, h2⟩ := C04.graph_rank p.tgts _ hid g hg
+  exact ⟨⟨rank, h1, h2⟩, statusMap_exists_unique (p.wf g) ⟨rank, h1⟩⟩
 
 /-! ### non-vacuity: a concrete diamond with an in-flight, a failed and a stale target -/
 
